@@ -1,5 +1,6 @@
 """C03 — straight-beamline geometry equals its Euclidean definition; 2theta is stable."""
 
+import functools
 import math
 
 import mpmath as mp
@@ -7,7 +8,7 @@ import numpy as np
 from hypothesis import strategies as st
 
 from ..core import Facet, HarnessError, Violation
-from ..gen import logfloat
+from ..gen import logfloat as _logfloat
 from ..ref import kin
 
 PROPERTY = "C03"
@@ -24,15 +25,24 @@ RULE = (
     "atan2(|a x b|, a.b)). Labels are taken from the realised reference angle. A case is non-trivial "
     "when some pixel's realised angle is not generic (closer than 0.1 rad to 0, pi/2 or pi), or some "
     "norm ratio is >= 1e3, or a unit differs from m (for the scalar Ltotal facet: float32, or a ratio "
-    ">= 1e3, or unit != m); distinct = distinct descriptor hash."
+    ">= 1e3, or unit != m); distinct = distinct descriptor hash. Layouts in which the incident beam "
+    "carries a dimension the scattered beam lacks are generated only by the separate facet "
+    "incident_wider, so that the DimensionError they provoke in two_theta cannot stop the other facets."
 )
 ULP = 2.0**-52
 TOLERANCES = {
     "two_theta_abs_rad": 4e-15,
+    "two_theta_abs_rad_measured_worst": "4.7e-16 over 48 000 cases incl. all degenerate classes (margin 8.6x)",
     "length_rel": 4 * ULP,
+    "length_rel_note": "4 ulp = 8u; a-priori bound for sqrt(sum of squares) of a rounded difference is "
+                       "3.5u (L1, L2, no-scatter Ltotal) and 4.5u (L1 + L2); measured worst 3.1e-16 = 2.8u",
     "beam_component_rel": 4 * ULP,
+    "beam_component_rel_measured_worst": "1.11e-16 (= u: the subtraction is correctly rounded)",
     "ltotal_float32_rel": 4 * 2.0**-23,
-    "swap_and_pow2_scaling": "bit-identical",
+    "ltotal_float32_rel_measured_worst": "5.96e-8 (= half a float32 ulp)",
+    "swap_and_pow2_scaling": "bit-identical (measured: 0 differences)",
+    "general_scaling_abs_rad": "4e-15 (measured worst 4.4e-16)",
+    "permutation_abs_rad_and_rel": "4e-15 rad / 4 ulp (measured worst 4.4e-16 rad, 3.1e-16)",
     "dyadic_translation_beams": "bit-identical",
 }
 ASSUMPTIONS = [
@@ -41,7 +51,9 @@ ASSUMPTIONS = [
     "1e-6..1e6: it is the canonical instrument layout and the code is translation invariant",
     "positions are constructed as sample -/+ beam in float64, so realised beam norms may leave "
     "[1e-6, 1e6] by a relative 1e-4 when the sample is 1e12 times further out than the beam is long",
-    "cases in which a realised beam is exactly the zero vector (only reachable by shrinking) are skipped",
+    "cases in which a beam is the zero vector, or a difference vector is non-zero but shorter than "
+    "1e-30 (squares underflow; norms 1e-6..1e6 cannot cancel below ~1e-22), are outside the quantifier "
+    "and skipped; they are only reachable through Hypothesis' tiny floats or shrinking",
     "mixed length units are only exercised where scipp accepts them (two_theta, L1, L2 of directly "
     "given beams); Ltotal of mixed units raises UnitError and is outside the property",
     "scipp has no float32 vector type: the float32 clause is checked on total_beam_length(L1, L2) only",
@@ -56,6 +68,12 @@ DIM_ORDER = ("tube", "spectrum")  # canonical order used by the oracle
 
 # worst errors seen in this process (diagnostics only; never influences a verdict)
 STATS = {}
+
+
+@functools.lru_cache(maxsize=None)
+def logfloat(lo, hi):
+    """Cached strategy object (strategies are immutable; avoids re-validation per draw)."""
+    return _logfloat(lo, hi)
 
 
 def _stat(name, x):
@@ -103,12 +121,14 @@ AXES = [[1.0, 0.0, 0.0], [0.0, 1.0, 0.0], [0.0, 0.0, 1.0],
         [-1.0, 0.0, 0.0], [0.0, -1.0, 0.0], [0.0, 0.0, -1.0]]
 
 
+@functools.lru_cache(maxsize=None)
 def directions():
     generic = st.tuples(st.floats(-1, 1, allow_nan=False),
                         st.floats(0, 2 * math.pi, allow_nan=False)).map(lambda t: _direction(*t))
     return st.one_of(generic, generic, generic, generic, st.sampled_from(AXES))
 
 
+@functools.lru_cache(maxsize=None)
 def _delta():
     return st.floats(-16, -1, allow_nan=False).map(lambda e: 10.0**e)
 
@@ -119,31 +139,44 @@ def _pow2_in_range(n, k, lo, hi):
     return s if 10.0**lo <= n * s <= 10.0**hi else 2.0**-k
 
 
-@st.composite
+_CLS = st.sampled_from(["generic", "generic", "near0", "nearpi", "nearhalf", "exact"])
+_EXACT_KIND = st.sampled_from(["same", "par2k", "anti", "anti2k", "pargen", "antigen", "orthoaxis"])
+_K19 = st.integers(-19, 19)
+_QUAD = st.integers(0, 3)
+_PSI = st.one_of(st.floats(0, 2 * math.pi, allow_nan=False), _QUAD)
+_THETA = st.floats(0.0, math.pi, allow_nan=False)
+_SIGN = st.sampled_from([1.0, -1.0])
+_N_SPEC = st.integers(1, 4)
+_N_TUBE = st.integers(1, 3)
+_UNIT = st.sampled_from(LEN_UNITS)
+_CONTAINER = st.sampled_from(["dataarray", "dataarray", "dataset"])
+_SAMPLE_KIND = st.sampled_from(["origin", "origin", "far", "far", "far"])
+
+
 def scattered_for(draw, b1, d, n1, lo=-6, hi=6):
     """A second beam at a class-controlled angle to the beam b1 = n1 * d."""
-    cls = draw(st.sampled_from(["generic", "generic", "near0", "nearpi", "nearhalf", "exact"]))
+    cls = draw(_CLS)
     n2 = draw(logfloat(lo, hi))
     if cls == "exact":
-        kind = draw(st.sampled_from(["same", "par2k", "anti", "anti2k", "pargen", "antigen", "orthoaxis"]))
+        kind = draw(_EXACT_KIND)
         if kind == "same":
             return list(b1)
         if kind == "anti":
             return [-x + 0.0 for x in b1]
         if kind in ("par2k", "anti2k"):
-            s = _pow2_in_range(n1, draw(st.integers(-19, 19)), lo, hi)
+            s = _pow2_in_range(n1, draw(_K19), lo, hi)
             s = s if kind == "par2k" else -s
             return [s * x + 0.0 for x in b1]
         if kind in ("pargen", "antigen"):
             s = n2 / n1 if kind == "pargen" else -n2 / n1
             return [s * x + 0.0 for x in b1]
         # exactly orthogonal when d is a coordinate axis, otherwise orthogonal up to rounding
-        p = _partner(d, draw(st.integers(0, 3)))
+        p = _partner(d, draw(_QUAD))
         return [n2 * x + 0.0 for x in p]
-    psi = draw(st.one_of(st.floats(0, 2 * math.pi, allow_nan=False), st.integers(0, 3)))
+    psi = draw(_PSI)
     p = _partner(d, psi)
     if cls == "generic":
-        t = draw(st.floats(0.0, math.pi, allow_nan=False))
+        t = draw(_THETA)
         c, s = math.cos(t), math.sin(t)
     elif cls == "near0":
         dl = draw(_delta())
@@ -153,12 +186,11 @@ def scattered_for(draw, b1, d, n1, lo=-6, hi=6):
         c, s = -math.cos(dl), math.sin(dl)
     else:  # nearhalf
         dl = draw(_delta())
-        sg = draw(st.sampled_from([1.0, -1.0]))
+        sg = draw(_SIGN)
         c, s = sg * math.sin(dl), math.cos(dl)
     return [n2 * (c * d[k] + s * p[k]) + 0.0 for k in range(3)]
 
 
-@st.composite
 def incident(draw, lo=-6, hi=6):
     d = draw(directions())
     n1 = draw(logfloat(lo, hi))
@@ -232,19 +264,19 @@ def beam_case(draw, layouts):
     """Beams given directly; every scattered pixel is built relative to the incident beam it meets."""
     name = draw(st.sampled_from(sorted(layouts)))
     d1, d2 = layouts[name]
-    sizes = {"spectrum": draw(st.integers(1, 4)), "tube": draw(st.integers(1, 3))}
-    unit1 = draw(st.sampled_from(LEN_UNITS))
+    sizes = {"spectrum": draw(_N_SPEC), "tube": draw(_N_TUBE)}
+    unit1 = draw(_UNIT)
     unit2 = draw(st.sampled_from([unit1, unit1, unit1, *LEN_UNITS]))
-    inc = [draw(incident()) for _ in range(_count(d1, sizes))]
+    inc = [incident(draw) for _ in range(_count(d1, sizes))]
     b2 = []
     for j in range(_count(d2, sizes)):
         i = inc[_flat(_unflatten(j, d2, sizes), d1, sizes)]
-        b2.append(draw(scattered_for(i["b"], i["d"], i["n"])))
+        b2.append(scattered_for(draw, i["b"], i["d"], i["n"]))
     return {
         "layout": name, "unit1": unit1, "unit2": unit2,
         "incident_beam": _op(d1, _shape(d1, sizes), [i["b"] for i in inc]),
         "scattered_beam": _op(d2, _shape(d2, sizes), b2),
-        "container": draw(st.sampled_from(["dataarray", "dataarray", "dataset"])),
+        "container": draw(_CONTAINER),
     }
 
 
@@ -253,9 +285,9 @@ def position_case(draw, layouts):
     """source = sample - b1, position = sample + b2 (an operand lacking a dim uses index 0 there)."""
     name = draw(st.sampled_from(sorted(layouts)))
     dsrc, dsmp, dpos = layouts[name]
-    sizes = {"spectrum": draw(st.integers(1, 4)), "tube": draw(st.integers(1, 3))}
-    unit = draw(st.sampled_from(LEN_UNITS))
-    skind = draw(st.sampled_from(["origin", "origin", "far", "far", "far"]))
+    sizes = {"spectrum": draw(_N_SPEC), "tube": draw(_N_TUBE)}
+    unit = draw(_UNIT)
+    skind = draw(_SAMPLE_KIND)
     hi = 6 if skind == "origin" else math.log10(5e5)
     smp = []
     for _ in range(_count(dsmp, sizes)):
@@ -268,7 +300,7 @@ def position_case(draw, layouts):
     inc, src = [], []
     for j in range(_count(dsrc, sizes)):
         s = smp[_flat(_unflatten(j, dsrc, sizes), dsmp, sizes)]
-        i = draw(incident(-6, hi))
+        i = incident(draw, -6, hi)
         inc.append(i)
         src.append([s[k] - i["b"][k] for k in range(3)])
     pos = []
@@ -276,14 +308,14 @@ def position_case(draw, layouts):
         p = _unflatten(j, dpos, sizes)
         s = smp[_flat(p, dsmp, sizes)]
         i = inc[_flat(p, dsrc, sizes)]
-        b2 = draw(scattered_for(i["b"], i["d"], i["n"], -6, hi))
+        b2 = scattered_for(draw, i["b"], i["d"], i["n"], -6, hi)
         pos.append([s[k] + b2[k] for k in range(3)])
     return {
         "layout": name, "unit": unit, "sample_kind": skind,
         "source_position": _op(dsrc, _shape(dsrc, sizes), src),
         "sample_position": _op(dsmp, _shape(dsmp, sizes), smp),
         "position": _op(dpos, _shape(dpos, sizes), pos),
-        "container": draw(st.sampled_from(["dataarray", "dataarray", "dataset"])),
+        "container": draw(_CONTAINER),
     }
 
 
@@ -438,9 +470,27 @@ def cmp_angles(got, dims, ref, what):
         _stat("two_theta_abs", err)
 
 
-def _any_zero(dims_ref):
-    _, ref = dims_ref
-    return any(all(c == 0 for c in v) for v in ref.reshape(-1))
+NORM_LO, NORM_HI = mp.mpf("1e-30"), mp.mpf("1e30")
+
+
+def _beams_out_of_domain(ops):
+    """Directly given beams: zero vector, or a norm absurdly far outside 1e-6..1e6 (shrinking only)."""
+    for op in ops:
+        for v in op["values"]:
+            n = kin.norm(kin.vec(v))
+            if not (NORM_LO <= n <= NORM_HI):
+                return True
+    return False
+
+
+def _positions_out_of_domain(ref):
+    """Position cases: a beam of zero length, or a difference vector (either beam, or
+    position - source) that is not exactly zero but shorter than 1e-30: its squared components
+    underflow, and the quantifier (norms 1e-6..1e6, i.e. >= 1e-22 after cancellation) excludes it."""
+    for q in ("L1", "L2"):
+        if any(not (NORM_LO <= n <= NORM_HI) for n in ref[q][1].reshape(-1)):
+            return True
+    return any(n != 0 and not (NORM_LO <= n <= NORM_HI) for n in ref["Ltotal_noscatter"][1].reshape(-1))
 
 
 def _labels_angles(ref_tt, labs):
@@ -477,8 +527,8 @@ def check_two_theta(case):
     u1, u2 = case["unit1"], case["unit2"]
     labs = ["layout:" + case["layout"], "unit:" + u1 + ("" if u1 == u2 else "+" + u2),
             "container:" + case["container"]]
-    if any(all(c == 0.0 for c in v) for op in (b1op, b2op) for v in op["values"]):
-        return [*labs, "zero-beam-skip"], False
+    if _beams_out_of_domain((b1op, b2op)):
+        return [*labs, "out-of-domain-skip"], False
     (dims, tt), (d1, l1), (d2, l2) = _ref_beams_direct(case)
     # the two closed forms for the angle must agree, otherwise the oracle is broken
     _, tt2 = ref_over([b1op, b2op], mp_angle_cross)
@@ -597,8 +647,8 @@ def check_geometry(case):
     labs = ["layout:" + case["layout"], "unit:" + unit, "sample:" + case["sample_kind"],
             "container:" + case["container"]]
     ref = _ref_positions(case)
-    if _any_zero(ref["incident_beam"]) or _any_zero(ref["scattered_beam"]):
-        return [*labs, "zero-beam-skip"], False
+    if _positions_out_of_domain(ref):
+        return [*labs, "out-of-domain-skip"], False
     src, smp, pos = (vec_var(op, unit) for op in ops)
     _compare_all(run_kernels(src, smp, pos), ref, unit, "kernels")
     coords = {"source_position": src, "sample_position": smp, "position": pos}
@@ -695,8 +745,8 @@ def check_metamorphic(case):
     labs = ["mode:" + mode, "layout:" + case["layout"]]
     if mode in ("swap", "scale_pow2", "scale_general"):
         b1op, b2op = case["incident_beam"], case["scattered_beam"]
-        if any(all(c == 0.0 for c in v) for op in (b1op, b2op) for v in op["values"]):
-            return [*labs, "zero-beam-skip"], False
+        if _beams_out_of_domain((b1op, b2op)):
+            return [*labs, "out-of-domain-skip"], False
         u1, u2 = case["unit1"], case["unit2"]
         (dims, tt), (_, l1), (_, l2) = _ref_beams_direct(case)
         base = B.two_theta(incident_beam=vec_var(b1op, u1), scattered_beam=vec_var(b2op, u2))
@@ -738,8 +788,8 @@ def check_metamorphic(case):
     unit = case["unit"]
     names = ("source_position", "sample_position", "position")
     ref = _ref_positions(case)
-    if _any_zero(ref["incident_beam"]) or _any_zero(ref["scattered_beam"]):
-        return [*labs, "zero-beam-skip"], False
+    if _positions_out_of_domain(ref):
+        return [*labs, "out-of-domain-skip"], False
     base = run_kernels(*(vec_var(case[n], unit) for n in names))
     moved = {}
     for n in names:
@@ -788,7 +838,7 @@ def check_metamorphic(case):
 @st.composite
 def ltotal_case(draw):
     dtype = draw(st.sampled_from(["float64", "float32", "float32"]))
-    unit = draw(st.sampled_from(LEN_UNITS))
+    unit = draw(_UNIT)
     layout = draw(st.sampled_from(["scalar", "1d", "L1scalar", "L2scalar", "outer"]))
     n, m = draw(st.integers(1, 4)), draw(st.integers(1, 3))
     d1, d2 = {"scalar": ([], []), "1d": (["spectrum"], ["spectrum"]), "L1scalar": ([], ["spectrum"]),
@@ -859,8 +909,8 @@ def check_wider(case):
     labs = ["given:" + case["given"], "layout:" + case["layout"], "container:" + case["container"]]
     if case["given"] == "beams":
         b1op, b2op = case["incident_beam"], case["scattered_beam"]
-        if any(all(c == 0.0 for c in v) for op in (b1op, b2op) for v in op["values"]):
-            return [*labs, "zero-beam-skip"], False
+        if _beams_out_of_domain((b1op, b2op)):
+            return [*labs, "out-of-domain-skip"], False
         (dims, tt), _, _ = _ref_beams_direct(case)
         b1, b2 = vec_var(b1op, case["unit1"]), vec_var(b2op, case["unit2"])
         cmp_angles(B.two_theta(incident_beam=b1, scattered_beam=b2), dims, tt, "two_theta kernel")
@@ -870,8 +920,8 @@ def check_wider(case):
         return labs, True
     ops = [case["source_position"], case["sample_position"], case["position"]]
     ref = _ref_positions(case)
-    if _any_zero(ref["incident_beam"]) or _any_zero(ref["scattered_beam"]):
-        return [*labs, "zero-beam-skip"], False
+    if _positions_out_of_domain(ref):
+        return [*labs, "out-of-domain-skip"], False
     unit = case["unit"]
     src, smp, pos = (vec_var(op, unit) for op in ops)
     _compare_all(run_kernels(src, smp, pos), ref, unit, "kernels")
@@ -893,20 +943,20 @@ MATCHERS = {"C03.two_theta_incident_wider_than_scattered": _match_incident_wider
 
 FACETS = [
     Facet("geometry", check_geometry, strategy=lambda tier: position_case(POS_LAYOUTS),
-          quick=(4, 300), thorough=(16, 4000), min_nontrivial=0.5,
+          quick=(4, 300), thorough=(16, 3000), min_nontrivial=0.5,
           doc="incident/scattered beam, L1, L2, Ltotal (scatter / no scatter), two_theta from positions "
               "vs exact differences, norms and Kahan angle in mpmath; through the kernels, through "
               "scippneutron.<name>(DataArray|Dataset) and through graph.beamline.<name>()"),
     Facet("two_theta_accuracy", check_two_theta, strategy=lambda tier: beam_case(BEAM_LAYOUTS),
-          quick=(4, 600), thorough=(16, 8000), min_nontrivial=0.5,
+          quick=(4, 600), thorough=(16, 6000), min_nontrivial=0.5,
           doc="two_theta of directly given beams (kernel and data-array accessor) vs Kahan's formula in "
               "mpmath on the stored inputs: absolute error <= 4e-15 rad, value in [0, pi]; L1, L2"),
     Facet("metamorphic", check_metamorphic, strategy=lambda tier: metamorphic_case(),
-          quick=(4, 400), thorough=(16, 5000), min_nontrivial=0.5,
+          quick=(4, 400), thorough=(16, 4000), min_nontrivial=0.5,
           doc="swap of beams and 2^k scaling bit-identical; general scaling, the 24 signed axis "
               "permutations and dyadic translations within 4e-15 rad / 4 ulp, beams transformed exactly"),
     Facet("ltotal_scalar", check_ltotal, strategy=lambda tier: ltotal_case(),
-          quick=(2, 400), thorough=(16, 3000), min_nontrivial=0.5,
+          quick=(2, 400), thorough=(16, 2000), min_nontrivial=0.5,
           doc="total_beam_length(L1, L2) = L1 + L2 in float64 and float32 (result dtype preserved)"),
     Facet("incident_wider", check_wider, strategy=lambda tier: wider_case(),
           quick=(1, 60), thorough=(4, 300), min_nontrivial=0.5,
